@@ -3,6 +3,7 @@
    blend/wselect and the history machine are in C03/Model.v and are tied to
    precondition/distributed_shampoo.py by the fault-injection correspondence of harness/c03.py. *)
 From Precond Require Import C03.FloatCls C03.Model C03.Proofs.
+From Precond Require C03.Ref C03.RefLink.
 
 (* A stored preconditioner is either the old one or a new root whose reported error is finite and
    strictly below the threshold.  Side conditions: the configured threshold is not NaN and the
@@ -122,3 +123,29 @@ Theorem c03_sharded_where_finite_invariant :
       all_finite (precond (run S upd root dummy refresh thr wselect x0 (firstn k gs))) = true.
 Proof. exact sharded_where_finite_invariant. Qed.
 Print Assumptions c03_sharded_where_finite_invariant.
+
+(* The acceptance gates as written in the source — translated on every run by tools/py2v_gate.py
+   (C03.Ref; regenerated and re-proved equal: GenEq obligations) — are the model's skip / select at
+   all four sites (pmap, quantized pmap, pjit, sharded), for every threshold, error and value type;
+   hence the headline fact holds of the source's own functions. *)
+Theorem c03_source_gates_are_model : forall (A : Type) thr e (new old : A),
+  C03.Ref.pmap_select thr e new old = select thr e new old /\
+  C03.Ref.qpmap_select thr e new old = select thr e new old /\
+  C03.Ref.pjit_select thr e new old = select thr e new old /\
+  C03.Ref.sharded_select thr e new old = select thr e new old.
+Proof. exact C03.RefLink.source_selects_are_model. Qed.
+Print Assumptions c03_source_gates_are_model.
+
+Theorem c03_source_gate_old_or_verified : forall (A : Type) (thr e : fv) (new old : A),
+  isnan thr = false -> e <> FNInf ->
+  forall r, (r = C03.Ref.pmap_select thr e new old \/ r = C03.Ref.qpmap_select thr e new old \/
+             r = C03.Ref.pjit_select thr e new old \/ r = C03.Ref.sharded_select thr e new old) ->
+  r = old \/ (r = new /\ isfinite e = true /\ fltb e thr = true).
+Proof. exact C03.RefLink.source_gate_old_or_verified. Qed.
+Print Assumptions c03_source_gate_old_or_verified.
+
+Theorem c03_source_sharded_select_is_elementwise : forall thr e (old new : list fv),
+  length old = length new ->
+  C03.Ref.sharded_select thr e new old = wselect thr e old new.
+Proof. exact C03.RefLink.sharded_select_is_wselect. Qed.
+Print Assumptions c03_source_sharded_select_is_elementwise.
